@@ -303,6 +303,45 @@ func c12Foreign(kind, prefix, target, depth string) (clause, detail string) {
 			return "foreign-path-exposes-own-resource", fmt.Sprintf("PROPFIND %q depth %s mentions %q", target, depth, o)
 		}
 	}
+	if depth == "1" {
+		// the client's collection listing on that path: nothing of the current user's, and no panic
+		clause, detail = c12ForeignClient(kind, h, target, own)
+	}
+	return clause, detail
+}
+
+func c12ForeignClient(kind string, h http.Handler, target string, own []string) (clause, detail string) {
+	defer func() {
+		if p := recover(); p != nil {
+			clause, detail = "foreign-client-panic", fmt.Sprint(p)
+		}
+	}()
+	w := &harness.Wire{Handler: h}
+	var paths []string
+	var err error
+	if kind == "caldav" {
+		cl, _ := caldav.NewClient(w.Client(), "http://h/")
+		var l []caldav.Calendar
+		l, err = cl.FindCalendars(context.Background(), target)
+		for _, c := range l {
+			paths = append(paths, c.Path)
+		}
+	} else {
+		cl, _ := carddav.NewClient(w.Client(), "http://h/")
+		var l []carddav.AddressBook
+		l, err = cl.FindAddressBooks(context.Background(), target)
+		for _, c := range l {
+			paths = append(paths, c.Path)
+		}
+	}
+	_ = err // an error is as good as an empty list
+	for _, p := range paths {
+		for _, o := range own {
+			if p == o {
+				return "foreign-path-exposes-own-resource", fmt.Sprintf("client listing of %q returns %q", target, p)
+			}
+		}
+	}
 	return "", ""
 }
 
